@@ -43,6 +43,8 @@ OPTION_VARIANTS: Dict[str, List[str]] = {
     'rtd-depth3': ['--theme', 'readthedocs', '--sidebar-expand-depth', '3', '--html-viewsource-base', 'http://example.org/src'],
     # a template directory whose files differ in case only (the lookup is case-insensitive) plus an ordinary override
     'template-dir': ['--template-dir', '<TPL>'],
+    # several subjects, one of them named twice: the pages written, their table ids and the inventory lines follow the order given
+    'html-subjects': ['<SUBJECTS>'],
 }
 
 
@@ -149,6 +151,10 @@ def judge_project(nroots: int, named: bool, variant: str, tier: str, res: Dict[s
             (tpl / 'extra.css').write_text('/* plain override */\n')
             (tpl / 'notes.txt').write_text('copied as is\n')
             extra = [str(tpl) if x == '<TPL>' else x for x in extra]
+        if '<SUBJECTS>' in extra:
+            first_is_pkg = isinstance(nroots, int) or str(nroots).startswith('p')
+            subjects = ['aa.sub.n.T', 'aa.K0', 'aa.a', 'aa.sub.m.S', 'aa.K0', 'aa.star.Beta', 'aa.shapes'] if first_is_pkg else ['aamod.N0', 'aamod.M0', 'aamod.f0', 'aamod.M0']
+            extra = [y for x in extra for y in ([z for sj in subjects for z in ('--html-subject', sj)] if x == '<SUBJECTS>' else [x])]
         ref = os.path.join(base, 'cwd', 'ref')
         rc, tail = run(roots, ref, 0, None, name, extra)
         res['evals'] += 1
